@@ -205,3 +205,59 @@ def c15_concurrent(c0: int, c1: int, c2: int, c3: int, c4: int, c5: int, v0: int
     ok4, p2 = safe(lambda: run_one(FRESH, probe))
     observe(("probe", p1, p2, intact))
     return verdict(intact and ok3 and ok4 and norm(p1) == norm(p2) and not loop.pending and all(t.done() for t in loop.tasks))
+
+
+# ---- a schema marked @nonIntrospectable, requests in flight together: the refusal of introspection does not depend on what else is running -------
+SDL_H = "schema @nonIntrospectable { query: Query }\ntype Query { whoami: String n: Int gate: Int }\n"
+ENG_H = build(SDL_H, "c15_h", custom_default_resolver=cresolver, coerce_parent_concurrently=False, query_cache_decorator=DictCache())
+H_DOCS = [("{ n whoami }", [("n",)]), ("{ gate __schema { queryType { name } } }", [("gate",)]), ("{ gate __type(name: \"Query\") { name } whoami }", [("gate",)]), ("{ gate n }", [("gate",), ("n",)])]
+H_DATA = {"n": 1, "gate": 2}
+for _q, _g in H_DOCS:
+    env.run(ENG_H.execute(_q, context={"id": "w", "gates": set(), "faults": {}}, initial_value=H_DATA))
+
+
+def _leaks(r):
+    d = r.get("data") or {}
+    return bool(d.get("__schema")) or bool(d.get("__type"))
+
+
+@obligation(tier="quick", timeout=200, shards=[{"docs": list(p)} for p in ((0, 1), (1, 0), (0, 2), (3, 1), (1, 2), (0, 1, 2))],
+            samples=[{"c0": 0, "c1": 0, "c2": 0, "c3": 0}, {"c0": 1, "c1": 1, "c2": 0, "c3": 1}],
+            symbolic=["c0..c3: completion order of the pending resolvers across the requests"],
+            selectors=["shard: which requests are in flight together (plain / introspecting through __schema / through __type), 2-3 requests"],
+            bounds="<= 3 requests, <= 4 gated resolvers, every completion order",
+            note="on a schema marked @nonIntrospectable every request, whatever completes around it, answers what it answers alone: introspection stays refused (never any __schema / __type data), plain fields are served")
+def c15_hidden(c0: int, c1: int, c2: int, c3: int) -> bool:
+    """
+    post: _
+    """
+    docs = shard()["docs"]
+    reqs = []
+    for i, d in enumerate(docs):
+        q, gates = H_DOCS[d]
+        reqs.append((q, {"id": "h%d" % i, "gates": set(gates), "faults": {}}))
+    cs = [c0, c1, c2, c3]
+    k = [0]
+
+    def chooser(n):
+        x = cs[k[0]] if k[0] < len(cs) else 0
+        k[0] += 1
+        return pick(x, n)
+
+    async def together():
+        return await asyncio.gather(*[ENG_H.execute(q, context=ctx, initial_value=H_DATA) for q, ctx in reqs])
+    loop = miniloop.MiniLoop(chooser=chooser)
+    ok, got = safe(lambda: loop.run_until_complete(together()))
+    observe(got, loop.releases)
+    if not ok:
+        return verdict(False)
+    for i, (q, ctx) in enumerate(reqs):
+        ok2, solo = safe(lambda: env.run(ENG_H.execute(q, context=ctx, initial_value=H_DATA)))
+        observe(("solo", i, solo))
+        if not ok2 or norm(got[i]) != norm(solo):
+            return verdict(False)
+        if _leaks(got[i]) or _leaks(solo):
+            return verdict(False)
+        if docs[i] in (0, 3) and (got[i].get("errors") or got[i].get("data") is None):
+            return verdict(False)
+    return verdict(not loop.pending and all(t.done() for t in loop.tasks))
